@@ -34,9 +34,9 @@ pub struct Case {
     /// 0 or 1 (api 0 only).
     pub beta: i32,
     pub bias: u8,
-    /// A zero points: 0 none, 1 all zero, 2 per-row from {0,255}, 3 per-row random, 4 one random value.
+    /// A zero points: 0 none, 1 all zero, 2 per-row from {0,255}, 3 per-row random, 4 one random value, 5 ramp (row index + 1).
     pub a_zp: u8,
-    /// B zero points: 0 none, 1 all zero, 2 per-column from {-128,127}, 3 per-column random, 4 one random value.
+    /// B zero points: 0 none, 1 all zero, 2 per-column from {-128,127}, 3 per-column random, 4 one random value, 5 ramp (column index - 30).
     pub b_zp: u8,
     /// 0 extremes {0,255}x{-128,127}; 1 full range random; 2 both reduced
     /// (u8 0..=127, i8 -64..=63); 3 only i8 reduced; 4 only u8 reduced;
@@ -162,10 +162,10 @@ pub fn signature(case: &Case, kind: &str, guard: Option<GuardPos>) -> String {
         }
     }
     if case.a_zp != 0 {
-        parts.push(format!("a_zero={}", ["none", "zeros", "extreme", "random", "const"][case.a_zp as usize % 5]));
+        parts.push(format!("a_zero={}", ["none", "zeros", "extreme", "random", "const", "ramp"][case.a_zp as usize % 6]));
     }
     if case.b_zp != 0 {
-        parts.push(format!("b_zero={}", ["none", "zeros", "extreme", "random", "const"][case.b_zp as usize % 5]));
+        parts.push(format!("b_zero={}", ["none", "zeros", "extreme", "random", "const", "ramp"][case.b_zp as usize % 6]));
     }
     parts.push(format!("vals={}", ["extremes", "full", "reduced", "i8_reduced", "u8_reduced", "const_255x-128", "const_255x127", "small"][case.vals as usize % 8]));
     if case.beta != 0 {
@@ -251,8 +251,8 @@ pub fn gen_case(rng: &mut Rng, kernel: &str, guard_phase: bool) -> Case {
             m /= 2;
         }
     }
-    let mut b_zp = rng.below(5) as u8;
-    if b_form == 2 && (b_zp == 2 || b_zp == 3) {
+    let mut b_zp = rng.below(6) as u8;
+    if b_form == 2 && (b_zp == 2 || b_zp == 3 || b_zp == 5) {
         // im2col inputs require one zero point for all columns.
         b_zp = 4;
     }
@@ -270,7 +270,7 @@ pub fn gen_case(rng: &mut Rng, kernel: &str, guard_phase: bool) -> Case {
         conv,
         beta: if api == 0 { rng.below(2) as i32 } else { 0 },
         bias: rng.below(3) as u8,
-        a_zp: rng.below(5) as u8,
+        a_zp: rng.below(6) as u8,
         b_zp,
         vals: rng.below(8) as u8,
         threads: if guard_phase { *rng.choose(&[1usize, 1, 3]) } else { *rng.choose(&[1usize, 4]) },
@@ -313,12 +313,14 @@ fn exec_inner(case: &Case, gemm: &Gemm8, guard: Option<GuardPos>) -> Outcome {
         2 => (0..m).map(|_| *rng.choose(&[0u8, 255])).collect(),
         3 => (0..m).map(|_| rng.next_u32() as u8).collect(),
         4 => vec![rng.next_u32() as u8; m],
+        5 => (0..m).map(|r| (r + 1) as u8).collect(),
         _ => vec![0; m],
     };
     let b_zero: Vec<i8> = match case.b_zp {
         2 => (0..n).map(|_| *rng.choose(&[-128i8, 127])).collect(),
         3 => (0..n).map(|_| rng.next_u32() as i8).collect(),
         4 => vec![rng.next_u32() as i8; n],
+        5 => (0..n).map(|c| (c as i64 - 30) as i8).collect(),
         _ => vec![0; n],
     };
     let a_zero_buf = Buf::new(a_zero.clone(), guard);
@@ -530,7 +532,7 @@ fn shrink(case: &Case, guard: Option<GuardPos>, kind: &str, run: &mut dyn FnMut(
     let mut g = guard;
     let mut runs = 0u32;
     let mut still = |c: &Case, g: Option<GuardPos>, runs: &mut u32| -> bool {
-        if *runs >= 220 {
+        if *runs >= max_shrink_runs() {
             return false;
         }
         *runs += 1;
@@ -583,17 +585,24 @@ fn shrink(case: &Case, guard: Option<GuardPos>, kind: &str, run: &mut dyn FnMut(
             }
         }),
         Box::new(|c| {
+            if c.a_zp > 1 && c.a_zp != 4 {
+                c.a_zp = 5;
+            }
+        }),
+        Box::new(|c| {
             if c.b_zp > 1 {
                 c.b_zp = 4;
             }
         }),
-        Box::new(|c| c.a_lay = Lay::ROW),
-        Box::new(|c| c.b_lay = Lay::ROW),
         Box::new(|c| {
-            if c.reduced_range() {
-                c.vals = 7;
+            if c.b_zp > 1 && c.b_zp != 4 && c.b_form != 2 {
+                c.b_zp = 5;
             }
         }),
+        Box::new(|c| c.a_lay = Lay::ROW),
+        Box::new(|c| c.b_lay = Lay::ROW),
+        Box::new(|c| c.vals = 7),
+        Box::new(|c| c.data_seed = 1),
     ];
     for f in &simple {
         let mut c = cur.clone();
